@@ -1,5 +1,7 @@
 mod absmodel;
 mod bvhcheck;
+mod clicheck;
+mod locks;
 mod sched;
 mod session;
 mod util;
@@ -28,6 +30,7 @@ fn worker(kind: &str) {
         let ans = match kind {
             "session" => session::worker_handle(&req),
             "bvh" => bvhcheck::worker_handle(&req),
+            "cli" => clicheck::worker_handle(&req),
             _ => serde_json::json!({"error": "unknown worker kind"}),
         };
         util::answer(&ans);
@@ -46,6 +49,9 @@ fn main() {
         "session" => session::main_session(&args),
         "bvh" => bvhcheck::main_bvh(&args),
         "sched" => sched::main_sched(&args),
+        "cli" => clicheck::main_cli(&args),
+        "locks" => locks::main_locks(&args),
+        "locks-one" => locks::main_one(&args),
         other => {
             eprintln!("unknown command {}", other);
             std::process::exit(2);
